@@ -129,6 +129,12 @@ func rulesC09(p *Prog, r *Report) {
 		}
 	}
 
+	// R09.10 the sweep window is bounded by the vault length counter: a vault created without the
+	// counter moving is never inside the window (same rule as C01's counter balance)
+	vaultCounterBalanceRule(p, r, "R09.10")
+
+	accessorKeyRule(p, r, "R09.11", map[string]bool{"liquidation": true, "liquidationsV2": true}, 10)
+
 	// R09.8 sweep cursors do not collide ------------------------------------------------------
 	// Each sweep keeps its offset in a record (prefix, id). Two different sweeps invoked with the
 	// same constant id under the same prefix share one cursor: each starts where the other list's
